@@ -411,6 +411,7 @@ pub fn run(args: &[&str]) -> String {
             }
         }
         "hand" => op_hand(args[1], args[2].parse().unwrap(), args[3]),
+        "stats" => op_stats(args[1]),
         "name" => {
             // the piece file name the implementation derives from a listed hash
             let h = unhex(args[1]);
@@ -783,4 +784,66 @@ pub fn gen(r: &mut Rng, n: usize, flavor: &str) -> Vec<String> {
     }
     out.truncate(n.max(14));
     out
+}
+
+/// `stats <ops ','-separated: d<n> u<n> x t>`: the statistics of a real connection task (no connection needed) driven
+/// through its own `update_*` methods and its timer handler `timeout_sync_stats`; per `t` what the manager channel
+/// received: `-` or `<download rate|n>:<upload rate|n>:<unexpected blocks>`.
+fn op_stats(ops: &str) -> String {
+    let r = catch(|| {
+        let rt = tokio::runtime::Builder::new_current_thread().enable_all().build().unwrap();
+        rt.block_on(async {
+            let (cmd_tx, mut cmd_rx) = mpsc::channel::<PeerCmd>(4096);
+            let (_broad_tx, broad_rx) = broadcast::channel::<BroadCmd>(8);
+            let mut handler = PeerHandler::new(ADDR.to_string(), [1u8; 20], None, [7u8; 20], 4, cmd_tx, broad_rx);
+            let mut out: Vec<String> = vec![];
+            for op in ops.split(',') {
+                let (c, rest) = op.split_at(1);
+                let n: usize = rest.parse().unwrap_or(0);
+                let kind = match c {
+                    "d" => 0u8,
+                    "u" => 1,
+                    "x" => 2,
+                    _ => 3,
+                };
+                if handler.verif_stats_script(&[(kind, n)]).await.is_err() {
+                    out.push("E".into());
+                    break;
+                }
+                if kind == 3 {
+                    out.push(match cmd_rx.try_recv() {
+                        Ok(PeerCmd::SyncStats { downloaded_rate, uploaded_rate, unexpected_blocks, .. }) => format!(
+                            "{}:{}:{}",
+                            downloaded_rate.map(|v| v.to_string()).unwrap_or("n".into()),
+                            uploaded_rate.map(|v| v.to_string()).unwrap_or("n".into()),
+                            unexpected_blocks
+                        ),
+                        Ok(_) => "?".into(),
+                        Err(_) => "-".into(),
+                    });
+                }
+            }
+            if out.is_empty() { "-".to_string() } else { out.join(",") }
+        })
+    });
+    r.unwrap_or_else(|_| "P".into())
+}
+
+/// Statistics scripts: 1..8 intervals, in each some downloaded / uploaded amounts (block sizes, zero, large values
+/// whose two-interval sum stays below 2^32) and unexpected blocks.
+pub fn gen_stats(r: &mut Rng) -> String {
+    let mut ops: Vec<String> = vec![];
+    let intervals = 1 + r.below(8);
+    for _ in 0..intervals {
+        for _ in 0..r.below(5) {
+            let amount = *r.pick(&[0u64, 1, 100, 16384, 16384, 16384, 65536, 1 << 20, 1 << 30, (1u64 << 31) - 1]);
+            match r.below(5) {
+                0 | 1 => ops.push(format!("d{}", amount.min(1 << 29))),
+                2 | 3 => ops.push(format!("u{}", amount.min(1 << 29))),
+                _ => ops.push("x".into()),
+            }
+        }
+        ops.push("t".into());
+    }
+    format!("stats {}", ops.join(","))
 }
